@@ -24,7 +24,11 @@ var c16layouts = []string{time.RFC3339, time.RFC3339Nano, time.RFC1123Z, time.RF
 	// layouts that begin or end with white space (a column-aligned log, a layout read from a configuration file): the
 	// layout is used as given (layouts that hold quotation marks or control characters are not in the list: the formats
 	// print the timestamp text without an escaping pass, see DESIGN section 6)
-	"15:04:05.000 ", " 2006-01-02 15:04:05 -0700", "15:04:05\u00a0", "  2006-01-02T15:04:05Z07:00  "}
+	"15:04:05.000 ", " 2006-01-02 15:04:05 -0700", "15:04:05\u00a0", "  2006-01-02T15:04:05Z07:00  ",
+	// the package's OWN layouts given explicitly (a logger that pins one of them has a layout of its own, whatever the
+	// flags select), and layouts that end in a LITERAL Z (no zone element: a letter like any other - the zone rule decides
+	// which wall clock is shown)
+	slog.TimeNano, slog.TimeNoNano, slog.RFC3339Nano, slog.RFC3339NanoOrig, "2006-01-02T15:04:05Z", "15:04:05.000Z", "Jan _2 15:04Z"}
 
 var c16flagTable = map[slog.Flags]string{
 	slog.Ldate:                                   "2006-01-02",
